@@ -30,7 +30,7 @@ PQuick == [ IntLo |-> -3000, IntHi |-> 3000,
             WideStack |-> {1, 2, 9},                     \* stack sizes with cards of the maximal dimensions 32 x 10
             PermAll |-> 4,                               \* all permutations up to this size
             KeyPrimeHi |-> 23, KeyYs |-> 2,
-            GroupPHi |-> 60, ComN |-> {1, 2, 3, 8},
+            GroupPHi |-> 60, ComN |-> {1, 2, 3, 8, 257},
             PvssN |-> 5, DkgN |-> 3, XvssN |-> 2, NestN |-> 3 ]
 PThorough == [ IntLo |-> -50000, IntHi |-> 50000,
             Offs |-> {0, 3, 5, 13, 17, 21, 26, 30},
@@ -39,7 +39,7 @@ PThorough == [ IntLo |-> -50000, IntHi |-> 50000,
             WideStack |-> {1, 2, 9, 64, 512},           \* 512 cards of 32 x 10: the largest stack there is
             PermAll |-> 5,
             KeyPrimeHi |-> 47, KeyYs |-> 4,
-            GroupPHi |-> 300, ComN |-> {1, 2, 3, 8, 32, 64},
+            GroupPHi |-> 300, ComN |-> {1, 2, 3, 8, 32, 64, 256, 257, 300, 512},
             PvssN |-> 12, DkgN |-> 5, XvssN |-> 4, NestN |-> 5 ]
 
 ---------------------------------------------------------------------------
